@@ -631,33 +631,33 @@ Add Parametric Relation : C ceq
   reflexivity proved by ceq_refl symmetry proved by ceq_sym transitivity proved by ceq_trans as ceq_rel.
 
 Add Parametric Morphism : cadd with signature ceq ==> ceq ==> ceq as cadd_mor.
-Proof. intros [a b] [a' b'] [H1 H2] [c d] [c' d'] [H3 H4]. unfold ceq, cadd in *. simpl in *. split; lra. Qed.
+Proof. intros [a b] [a' b'] [H1 H2] [c d] [c' d'] [H3 H4]. unfold ceq, cadd, cre, cim in *. cbn [fst snd] in *. rewrite !Qred_correct. split; lra. Qed.
 Add Parametric Morphism : cmul with signature ceq ==> ceq ==> ceq as cmul_mor.
 Proof.
-  intros [a b] [a' b'] [H1 H2] [c d] [c' d'] [H3 H4]. unfold ceq, cmul in *. simpl in *.
-  split; rewrite H1, H2, H3, H4; reflexivity.
+  intros [a b] [a' b'] [H1 H2] [c d] [c' d'] [H3 H4]. unfold ceq, cmul, cre, cim in *. cbn [fst snd] in *.
+  split; rewrite !Qred_correct, H1, H2, H3, H4; reflexivity.
 Qed.
 
 Lemma cadd_0_l : forall x, ceq (cadd c0 x) x.
-Proof. intros [a b]. unfold ceq, cadd, c0. simpl. split; lra. Qed.
+Proof. intros [a b]. unfold ceq, cadd, c0, cre, cim. cbn [fst snd]. rewrite ?Qred_correct. split; lra. Qed.
 Lemma cadd_0_r : forall x, ceq (cadd x c0) x.
-Proof. intros [a b]. unfold ceq, cadd, c0. simpl. split; lra. Qed.
+Proof. intros [a b]. unfold ceq, cadd, c0, cre, cim. cbn [fst snd]. rewrite ?Qred_correct. split; lra. Qed.
 Lemma cadd_comm : forall x y, ceq (cadd x y) (cadd y x).
-Proof. intros [a b] [c d]. unfold ceq, cadd. simpl. split; lra. Qed.
+Proof. intros [a b] [c d]. unfold ceq, cadd, cre, cim. cbn [fst snd]. rewrite ?Qred_correct. split; lra. Qed.
 Lemma cadd_assoc : forall x y z, ceq (cadd x (cadd y z)) (cadd (cadd x y) z).
-Proof. intros [a b] [c d] [e f]. unfold ceq, cadd. simpl. split; lra. Qed.
+Proof. intros [a b] [c d] [e f]. unfold ceq, cadd, cre, cim. cbn [fst snd]. rewrite ?Qred_correct. split; lra. Qed.
 Lemma cmul_0_r : forall x, ceq (cmul x c0) c0.
-Proof. intros [a b]. unfold ceq, cmul, c0. simpl. split; lra. Qed.
+Proof. intros [a b]. unfold ceq, cmul, c0, cre, cim. cbn [fst snd]. rewrite ?Qred_correct. split; lra. Qed.
 Lemma cmul_0_l : forall x, ceq (cmul c0 x) c0.
-Proof. intros [a b]. unfold ceq, cmul, c0. simpl. split; lra. Qed.
+Proof. intros [a b]. unfold ceq, cmul, c0, cre, cim. cbn [fst snd]. rewrite ?Qred_correct. split; lra. Qed.
 Lemma cmul_1_l : forall x, ceq (cmul c1 x) x.
-Proof. intros [a b]. unfold ceq, cmul, c1. simpl. split; lra. Qed.
+Proof. intros [a b]. unfold ceq, cmul, c1, cre, cim. cbn [fst snd]. rewrite ?Qred_correct. split; lra. Qed.
 Lemma cmul_assoc : forall x y z, ceq (cmul x (cmul y z)) (cmul (cmul x y) z).
-Proof. intros [a b] [c d] [e f]. unfold ceq, cmul. simpl. split; ring. Qed.
+Proof. intros [a b] [c d] [e f]. unfold ceq, cmul, cre, cim. cbn [fst snd]. rewrite ?Qred_correct. split; ring. Qed.
 Lemma cmul_add_distr_l : forall x y z, ceq (cmul x (cadd y z)) (cadd (cmul x y) (cmul x z)).
-Proof. intros [a b] [c d] [e f]. unfold ceq, cmul, cadd. simpl. split; ring. Qed.
+Proof. intros [a b] [c d] [e f]. unfold ceq, cmul, cadd, cre, cim. cbn [fst snd]. rewrite ?Qred_correct. split; ring. Qed.
 Lemma cmul_add_distr_r : forall x y z, ceq (cmul (cadd x y) z) (cadd (cmul x z) (cmul y z)).
-Proof. intros [a b] [c d] [e f]. unfold ceq, cmul, cadd. simpl. split; ring. Qed.
+Proof. intros [a b] [c d] [e f]. unfold ceq, cmul, cadd, cre, cim. cbn [fst snd]. rewrite ?Qred_correct. split; ring. Qed.
 Lemma ceq_zero : forall x, ceq x c0 -> cis_zero x = true.
 Proof.
   intros [a b] [H1 H2]. unfold cis_zero. simpl in *. apply andb_true_iff. split; apply Qeq_bool_iff; assumption.
@@ -687,7 +687,7 @@ Proof.
   - unfold sig. simpl. symmetry. apply cadd_0_l.
   - rewrite !sig_S. rewrite IH.
     destruct (f s) as [a b], (g s) as [c d], (sig (S s) n f) as [e h], (sig (S s) n g) as [i j].
-    unfold ceq, cadd. simpl. split; lra.
+    unfold ceq, cadd, cre, cim. cbn [fst snd]. rewrite !Qred_correct. split; lra.
 Qed.
 Lemma sig_scal_l : forall n s a f, ceq (sig s n (fun l => cmul a (f l))) (cmul a (sig s n f)).
 Proof.
